@@ -5,7 +5,8 @@ prop, n, sid, breaks, needs, detected = sys.argv[1:7]
 src = "/tmp/seed-%s/%s" % (prop, n)
 dst = "/verif/seeded/%s" % sid
 os.makedirs(dst, exist_ok=True)
-shutil.copy(src + "/patch.diff", dst + "/patch.diff")
+rebased = "/tmp/seedpatch-%s-%s.diff" % (prop, n)
+shutil.copy(rebased if os.path.exists(rebased) and os.path.getsize(rebased) > 0 else src + "/patch.diff", dst + "/patch.diff")
 shutil.copy(src + "/demo_test.go", dst + "/demo_test.go")
 if os.path.exists(src + "/README.md"):
     shutil.copy(src + "/README.md", dst + "/README.md")
